@@ -2,6 +2,12 @@
 
     MODEL ONLY (definitions, executable).  Theorems are in LifecycleProofs.v / LifecycleProofs2.v.
 
+    Models the code as of /repo commit a3b1d9c ("ponder and infinite searches answer only after stop/ponderhit"),
+    i.e. including: per-search atomic stop token and reject-while-running (c009003), sendLock around
+    UciHandler.send (23863b3), isRunning released BEFORE the result is sent (470afed), stopConditions without a
+    store into the token and no timer for infinite searches (a3b1d9c).  Line numbers in the comments refer to
+    search.go / uci.go of that period and are indicative; the statement transcribed is named next to them.
+
     Source transcribed: /repo/internal/search/search.go (NewSearch, NewGame, StartSearch, StopSearch,
     PonderHit, IsSearching, WaitWhileSearching, IsReady, ClearHash, ResizeCache, initialize, run,
     stopConditions, startTimer, setupSearchLimits, addExtraTime, sendResult), /repo/internal/uci/uci.go
@@ -20,7 +26,7 @@
                         (mkLimits false false false 0 true false)      (* go nodes n *)
               time  = abstract time budget in clock ticks (any value > 0 behaves alike unless two timers compete);
               nodes = a node limit is set (Limits.Nodes > 0);
-              extra = hadBookMove && TimeControl && MoveTime == 0 at search.go:466 (addExtraTime will run) -
+              extra = hadBookMove && TimeControl && MoveTime == 0 in iterativeDeepening (addExtraTime will run) -
                       a harness that disables the book prints false.
       call    ::= CStart <limits> | CStop | CWait | CIsSearching | CPonderHit | CNewGame | CClearHash
                 | CResize | CIsReady
@@ -29,11 +35,12 @@
       event   ::= EStartReturned <n:nat>   (* StartSearch returned and was accepted; n = 1,2,.. number of this accepted start *)
                 | EStartRejected           (* StartSearch returned, "Search already running" *)
                 | EStartDone               (* StartSearch returned, harness does not know which of the two (wildcard) *)
-                | EResult <n:nat>          (* driver.SendResult called by the search goroutine of accepted start n *)
+                | EResult <n:nat>          (* driver.SendResult called by the search goroutine of accepted start n
+                                              (results of different searches may arrive in any order) *)
                 | EStopReturned            (* StopSearch returned *)
                 | EReadyOk                 (* driver.SendReadyOk called (inside IsReady) *)
                 | EIsSearching <b:bool>    (* IsSearching returned b *)
-                | ETimerFired <n:nat>      (* a timer of search n reached stop.Store(true) (search.go:732) - OPTIONAL:
+                | ETimerFired <n:nat>      (* a timer of search n reached stop.Store(true) (end of startTimer) - OPTIONAL:
                                               the checker also accepts traces in which timer firings are not reported *)
                 | EWaitReturned | ENewGameReturned | EPonderHitReturned
                 | EClearHash <refused:bool>   (* ClearHash returned; refused = "Can't clear hash while searching." *)
